@@ -13,6 +13,33 @@ TB = ('Trusted base: Coq 8.16.1 kernel + vm_compute (no native_compute, no axiom
       'in the evidence, not by a proof about the Python source.')
 
 CLAIMS = {
+    'C05': dict(
+        level='proof',
+        technique='Coq proof (raw_view_spec by case analysis on the generated rotation table + index arithmetic, soundness for every observation function and random outcome) + extracted-model differential check',
+        text='Coq theorems (Props/C05.v): raw_view_spec -- for every grid, pose, well-formed area and heading, cell (i,j) of rot o (subgrid g (pose.area)) '
+             'is the world cell under the view placed at the pose (Hidden outside the grid) and the result has the area shape; observation_sound for '
+             'every built-in observation function and every random outcome (cell Hidden or structurally the world cell, anchor, FORWARD, held item); '
+             'outside the grid => Hidden; fully_transparent shows every cell.  Tie: T1 (rotation performed per orientation, orientation matrices and '
+             'area table regenerated from the code) + T2 on tagged grids, all poses/headings, areas of any extent, exhaustive small areas; oracle uses object identity.',
+        design='8/C05', note=TB),
+    'C06': dict(
+        level='proof',
+        technique='Coq proof (flood fill = inductive reachability, non-interference/monotonicity by induction on reachability and on ray prefixes, stochastic bounds over all outcomes) + exhaustive opacity patterns against the code',
+        text='Coq theorems (Props/C06.v): the recursive marking flood fill of partially_occluded equals inductive reachability (both directions, fuel '
+             'shown sufficient); agent visible; chain; non-interference (mask level and observation level: from_visibility gives equal results when the '
+             'worlds agree on the visible cells); monotone; ray tracing (defaults): visible iff lit, non-interference, chain, monotone, agent visible for '
+             'an arbitrary ray list whose cells lie in the view (C19 contract); stochastic variant: every outcome shows only lit cells and always shows cells '
+             'every ray reaches lit.  Non-interference is not claimed for thresholds other than the default.  Tie: T2 on masks for ALL opacity patterns of '
+             'small views, pair oracle replacing hidden/out-of-view world cells by a 12-object alphabet, scripted random() values 0.0 and 1-2^-53.',
+        design='8/C06', note=TB + ' Rays (utils/raytracing.py, float trigonometry) are an input of the model.'),
+    'C07': dict(
+        level='proof',
+        technique='Coq proof (invariance of from_visibility under any rigid motion of Z^2; Grid.__mul__ with the induced cell map is such a motion for all shapes) + world-rotation oracle on the code',
+        text='Coq theorems (Props/C07.v): for any rigid motion t and worlds with lookupH g\' (t p) = lookupH g p, every built-in observation function '
+             '(the stochastic one as equal choice trees) gives the same result from the carried pose, for every view area; grid_rot_by r with the cell map '
+             'rot_motion and heading (-r)*o is such a motion for all grid shapes; hence world_rotation_invariant for all four quarter turns.  Tie: T1/T2 '
+             'as C05; oracle rotates the world through the real Grid.__mul__ and compares real observations with ==.',
+        design='8/C07', note=TB),
     'C08': dict(
         level='proof',
         technique='Coq proof (closed form of move/turn + kinematic invariant by induction over histories) + extracted-model differential check',
